@@ -269,3 +269,61 @@ func H_C15_order(kind int) {
 	vAssert("equal-iff-values-agree", vAnd(r12 == same, r21 == same))
 	vReach("end")
 }
+
+// H_C15_pass: passwords compare case-sensitively and byte for byte; the
+// skip-password flag (and only it, among the single flags) makes two URIs that
+// differ in the password alone compare equal.
+func H_C15_pass(np int) {
+	pw1 := vBytes(np)
+	pw2 := vBytes(np)
+	for i := range pw1 {
+		vAssume(vAnd(isAlnum(pw1[i]), isAlnum(pw2[i])))
+	}
+	b1 := append(append([]byte("sip:u:"), pw1...), "@h;x=1"...)
+	b2 := append(append([]byte("SIP:u:"), pw2...), "@H;X=1"...)
+	var u1, u2 PsipURI
+	e1, _ := ParseURI(b1, &u1)
+	e2, _ := ParseURI(b2, &u2)
+	vAssert("both-parse", e1 == NoURIErr && e2 == NoURIErr)
+	same := vBytesEq(pw1, pw2)
+	f := URICmpFlags(vU8() & 63)
+	r := URICmp(&u1, b1, &u2, b2, f)
+	vAssert("equal-iff-passwords-equal-or-skipped", r == vOr(same, f&URICmpSkipPass != 0))
+	vReach("end")
+}
+
+// H_C15_flags: two URIs that differ in exactly one component (which: 0 port,
+// 1 scheme, 2 user, 3 password, 4 a parameter value, 5 a header value, 6 host; the
+// differing byte is symbolic) compare equal exactly when the skip flag of that
+// component is set - for all 64 flag sets.
+func H_C15_flags(which int) {
+	c := vByte()
+	parts := [...]string{"sips", "u", "p", "h", "5", "b", "d"}
+	mk := func(p [7]string) []byte {
+		return []byte(p[0] + ":" + p[1] + ":" + p[2] + "@" + p[3] + ":" + p[4] + ";a=" + p[5] + "?c=" + p[6])
+	}
+	b1 := mk(parts)
+	b2 := mk(parts)
+	// position of the differing byte in b2
+	pos := [...]int{len("sips:u:p@h:"), 0, len("sips:"), len("sips:u:"), len("sips:u:p@h:5;a="), len("sips:u:p@h:5;a=b?c="), len("sips:u:p@")}
+	if which == 1 {
+		b2 = append([]byte("sip"), b2[4:]...)
+	} else {
+		if which == 0 {
+			vAssume(c >= '0' && c <= '9' && c != '5')
+		} else {
+			vAssume(isAlnum(c) && refLower(c) != b2[pos[which]])
+		}
+		b2[pos[which]] = c
+	}
+	var u1, u2 PsipURI
+	e1, _ := ParseURI(b1, &u1)
+	e2, _ := ParseURI(b2, &u2)
+	vAssert("both-parse", e1 == NoURIErr && e2 == NoURIErr)
+	f := URICmpFlags(vU8() & 63)
+	// which == 6: the host differs - there is no flag that skips the host
+	bit := [...]URICmpFlags{URICmpSkipPort, URICmpSkipScheme, URICmpSkipUser, URICmpSkipPass, URICmpSkipParams, URICmpSkipHeaders, 0}
+	vAssert("equal-iff-the-differing-component-is-skipped", URICmp(&u1, b1, &u2, b2, f) == (f&bit[which] != 0))
+	vAssert("symmetric", URICmp(&u2, b2, &u1, b1, f) == (f&bit[which] != 0))
+	vReach("end")
+}
